@@ -129,6 +129,8 @@ def _codec_fields(rng, kind):
         }
     if kind == "inv":
         n = rng.choice([0, 1, 1, 2, 3, 6, 252, 253, 300])
+        if rng.random() < 0.003:
+            n = rng.choice([50000, 50001, 65535, 65536])  # Bitcoin Core's MAX_INV_SZ and the 0xfd / 0xfe CompactSize edge
         types = sorted(codecs.INV_TYPES)
         return {
             "items": [
@@ -163,8 +165,11 @@ def plan(seed, tier="quick", index=0):
         return _plan_concurrent(seed, rng, network)
     nframes = rng.choice([1, 1, 2, 3])
     long_run = stratum == "clean" and rng.random() < 0.04
+    bulk = stratum == "clean" and not long_run and rng.random() < 0.01
     if long_run:
         nframes = rng.choice([17, 33, 65, 130, 257])  # long-lived connection: counters, thresholds, wrap-arounds
+    if bulk:
+        nframes = rng.choice([20, 40, 70])  # megabytes over one connection
     fr = []
     for _ in range(nframes):
         if stratum == "codec" or rng.random() < 0.15:
@@ -183,6 +188,8 @@ def plan(seed, tier="quick", index=0):
             cmd = rng.choice(COMMAND_TABLE) if inside else rng.choice(["sendheaders", "feefilter", "wtxidrelay", "x", "twelve_chars", ""])
             if long_run:
                 size = rng.choice([0, 0, 8, 36, 100])
+            if bulk:
+                size = rng.choice([8000, 65535, 65536, 70000, rng.randrange(0, 70001)])
             fr.append({"cmd": cmd, "payload_seed": rng.getrandbits(32), "size": size, "built": "lib" if inside and rng.random() < 0.8 else "ref"})
             if rng.random() < 0.2:
                 fr[-1]["pattern"] = rng.choice(["zeros", "ff", "fd-markers", "magic", "embedded-frame"])
